@@ -18,6 +18,7 @@ def run(tier):
     f.out.stage('A2 inductive step of the session invariants (ViseInd)')
     vise_ind(f, [('reenter', 2, {0, 1, 2, 3, 6, 8}), ('nav', 1, {0, 3, 6, 8}), ('capacity', 1, {0, 3, 6, 8})] if t else [('reenter', 1, {0, 6, 8})])
     f.out.stage('B+C model histories on the real engine (exhaustive over each program alphabet + refused inputs)'); f.replay_model(5 if t else 3)
+    f.random_env = {'VERIF_ECHO': '1'}      # functions that store the client's input as it is; accepted inputs that are not valid UTF-8
     f.out.stage('C random programs, junk inputs, both modes'); f.random(400 if t else 50, 30 if t else 20, 16, 'LP')
     f.out.stage('C example applications of the repository'); f.examples(40 if t else 8, 14)
     f.out.stage('C paired runs over mem / fs / pg-fake'); f.pairs_stage(60 if t else 10, 12, 10)
